@@ -1433,7 +1433,7 @@ def r110(ctx: Ctx) -> RuleReport:
     import re as _re
     from ..rx import Lang
     from ..resolve import facts_ex
-    rep = RuleReport('R110', r110.title, floor=2)
+    rep = RuleReport('R110', r110.title, floor=1)
     cp = ctx.lex.compiled['PENMAN_RE']
     langs = {'ROLE+ALIGNMENT': cp.lang('ROLE').cat(cp.lang('ALIGNMENT')), 'SYMBOL+ALIGNMENT': cp.lang('SYMBOL').cat(cp.lang('ALIGNMENT'))}
     m = ctx.repo.module('penman.layout')
@@ -1525,7 +1525,13 @@ def r124(ctx: Ctx) -> RuleReport:
     from ..resolve import facts_ex
     rep = RuleReport('R124', r124.title, floor=2)
     fi = ctx.repo.func('penman.layout', 'node_contexts')
-    loops = [n for n in walk_local(fi.node) if isinstance(n, ast.For) and '.triples' in norm(n.iter)]
+    def over_triples(it):
+        while isinstance(it, ast.Call) and norm(it.func) in ('enumerate', 'list', 'iter') and it.args:
+            it = it.args[0]
+        if isinstance(it, ast.Name):
+            it = single_def(ctx, fi, it)
+        return isinstance(it, ast.Attribute) and it.attr == 'triples'
+    loops = [n for n in walk_local(fi.node) if isinstance(n, ast.For) and over_triples(n.iter)]
     if len(loops) != 1:
         rep.undecided(f'{fi.fq}: one loop over the triples', fi.loc(), f'{len(loops)} loops')
         return rep
@@ -1551,10 +1557,18 @@ def r124(ctx: Ctx) -> RuleReport:
     if not apps:
         rep.undecided(f'{fi.fq}: the target of a relation is a candidate context', fi.loc(loop), 'no append of <triple>[2]')
     # (b) a context is recorded only when the stack top is among the candidates
-    stores = [n for n in ast.walk(loop) if isinstance(n, ast.Assign) and isinstance(n.targets[0], ast.Subscript) and 'stack[-1]' in norm(n.value).replace(' ', '')]
+    # names that stand for the stack top
+    tops = {'stack[-1]'}
+    for n in ast.walk(loop):
+        if isinstance(n, ast.Assign) and isinstance(n.targets[0], ast.Name) and norm(n.value).replace(' ', '') == 'stack[-1]':
+            tops.add(n.targets[0].id)
+    stores = [n for n in ast.walk(loop) if isinstance(n, ast.Assign) and isinstance(n.targets[0], ast.Subscript) and norm(n.value).replace(' ', '') in tops
+              and not norm(n.targets[0].value).startswith('stack')]
+    stores += [n for n in ast.walk(loop) if isinstance(n, ast.Expr) and isinstance(n.value, ast.Call) and isinstance(n.value.func, ast.Attribute) and n.value.func.attr == 'append'
+               and n.value.args and norm(n.value.args[0]).replace(' ', '') in tops and norm(n.value.func.value) != 'stack']
     for st in stores:
         fx = {(f.replace(' ', ''), pol) for f, pol in facts_ex(ctx, fi, st)}
-        elig = any((f.startswith('stack[-1]notin') and not pol) or (f.startswith('stack[-1]in') and pol) for f, pol in fx)
+        elig = any((f.startswith(f'{t_}notin') and not pol) or (f.startswith(f'{t_}in') and pol) for f, pol in fx for t_ in tops)
         nonempty = ('stack', True) in fx or ('notstack', False) in fx
         key = f'{fi.fq}: `{norm(st)[:40]}` records the stack top as the context'
         if elig and nonempty:
@@ -1568,7 +1582,7 @@ def r124(ctx: Ctx) -> RuleReport:
         rep.undecided(f'{fi.fq}: the stack top is recorded as the context', fi.loc(loop), 'no store of stack[-1]')
     # (c) the mismatch ends the loop
     for n in ast.walk(loop):
-        if isinstance(n, ast.If) and 'stack[-1]notin' in norm(n.test).replace(' ', ''):
+        if isinstance(n, ast.If) and any(f'{t_}notin' in norm(n.test).replace(' ', '') for t_ in tops):
             key = f'{fi.fq}: a triple whose candidates do not include the stack top ends the simulation'
             body = n.body
             if len(body) == 1 and isinstance(body[0], (ast.Break, ast.Return)):
